@@ -935,7 +935,8 @@ impl Indexable for ast::SimpleValue {
                     Symbol::Variable(variable) => Some(variable.typ.clone()),
                     Symbol::Defset(defset) => Some(defset.typ.clone()),
                     Symbol::Multiclass(_) => None,
-                    Symbol::Defm(_) => None,
+                    // the record that the defm defines under its own name: its class is not known
+                    Symbol::Defm(_) => Some(Type::Unknown),
                 }
             }
             ast::SimpleValue::ClassValue(class_value) => {
